@@ -1,12 +1,16 @@
 import SF.Props.C04
 import SF.Props.C10
 import SF.Props.C13
+import SF.Props.C05
+import SF.Props.C06
+import SF.Lemmas.Invariance
 import Mathlib.Data.List.Induction
 /-
   C12 — Normalised indicators are invariant to units, offset and sign.
   Stated on the batch definitions (equal to the state machines by C02 / C04 / C13) for all a > 0, all b, every N and
   every history.  Views proved so far: Sma, Ema, Cumulative (homogeneity), Min / Max (homogeneity and the Min/Max swap
-  under negation), LnReturn and Drawdown (scale invariance).  The remaining views of the statement are decided by the
+  under negation), LnReturn and Drawdown (scale invariance), HLNormalizer (affine invariance, negation), NET (affine invariance,
+  negation), BinaryEntropy, Rsi, MyRSI (incl. held values), CenterOfGravity (scale invariance).  The remaining views of the statement are decided by the
   exact relational runs of `./check C12`; see DESIGN.md for the list.
 -/
 namespace SF.C12
@@ -139,5 +143,116 @@ theorem drawdown_scale (a : α) (ha : 0 < a) (xs : List α) :
             rw [← mul_sub, mul_div_mul_left _ _ ha.ne']
           rw [e]
   rw [key]
+
+
+/-! ### HLNormalizer: invariant under x ↦ a·x + b (a > 0), negated by negation -/
+theorem hln_affine (N : Nat) (a b : α) (ha : 0 < a) (xs : List α) :
+    Spec.hln N (xs.map fun x => a * x + b) = Spec.hln N xs := by
+  have hf : StrictMono fun x : α => a * x + b := fun x y h => by simp only; nlinarith
+  simp only [Spec.hln, lastN_map, minL_map_mono _ hf, maxL_map_mono _ hf, List.getLast?_map]
+  cases h1 : minL (lastN N xs) <;> cases h2 : maxL (lastN N xs) <;> cases h3 : xs.getLast? <;>
+    simp only [Option.map_some, Option.map_none]
+  rename_i lo hi x
+  by_cases he : hi = lo
+  · simp [he]
+  · have hne : ¬ (a * hi + b = a * lo + b) := by
+      intro h; apply he; have : a * (hi - lo) = 0 := by linarith
+      rcases mul_eq_zero.mp this with h | h
+      · exact absurd h ha.ne'
+      · linarith
+    simp only [beq_iff_eq, he, hne, if_false, Option.some.injEq, nat_eq]
+    have hd : hi - lo ≠ 0 := sub_ne_zero.mpr he
+    have hd2 : a * hi + b - (a * lo + b) = a * (hi - lo) := by ring
+    rw [hd2]; field_simp; ring
+
+theorem hln_neg (N : Nat) (xs : List α) :
+    Spec.hln N (xs.map fun x => -x) = (Spec.hln N xs).map fun v => -v := by
+  have hf : StrictAnti fun x : α => -x := fun x y h => by simp only; linarith
+  simp only [Spec.hln, lastN_map, minL_map_anti _ hf, maxL_map_anti _ hf, List.getLast?_map]
+  cases h1 : minL (lastN N xs) <;> cases h2 : maxL (lastN N xs) <;> cases h3 : xs.getLast? <;> simp [nat_eq]
+  rename_i lo hi x
+  by_cases he : hi = lo
+  · simp [he]
+  · have : ¬ (-lo = -hi) := by intro h; apply he; linarith
+    have h' : ¬ (lo = hi) := fun h => he h.symm
+    simp only [he, h', if_false]
+    have hd : hi - lo ≠ 0 := sub_ne_zero.mpr he
+    have hd' : -lo + hi ≠ 0 := by intro h; apply hd; linarith
+    field_simp; ring
+
+/-! ### NET (Kendall): order-only, so invariant under every strictly increasing map; negated by negation -/
+/-! ### NET (Kendall): order-only, invariant under x ↦ a·x + b (a > 0); negated by negation -/
+theorem net_affine (N : Nat) (a b : α) (ha : 0 < a) (xs : List α) :
+    Spec.net N (xs.map fun x => a * x + b) = Spec.net N xs := by
+  simp only [Spec.net, lastN_map, List.length_map, kendall, Invar.kendallNum_affine a b ha]
+
+theorem net_neg (N : Nat) (xs : List α) :
+    Spec.net N (xs.map fun x => -x) = (Spec.net N xs).map fun v => -v := by
+  simp only [Spec.net, lastN_map, List.length_map, kendall, Invar.kendallNum_neg]
+  split <;> simp [neg_div]
+
+/-! ### BinaryEntropy: only signs matter -/
+theorem entropy_scale [Transc α] (N : Nat) (a : α) (ha : 0 < a) (xs : List α) :
+    Spec.entropy N (xs.map fun x => a * x) = Spec.entropy N xs := by
+  simp only [Spec.entropy, lastN_map, List.isEmpty_map, List.length_map, List.filter_map]
+  have : ((fun x : α => decide (nat 0 ≤ x)) ∘ fun x => a * x) = fun x : α => decide (nat 0 ≤ x) := by
+    funext x; simp only [Function.comp, nat_eq, Nat.cast_zero]
+    congr 1; exact propext (mul_nonneg_iff_of_pos_left ha)
+  rw [this]
+
+/-! ### Rsi, MyRSI: ratios of sums of changes -/
+/-- Rsi is unchanged by a change of unit -/
+theorem rsi_scale (N : Nat) (a : α) (ha : 0 < a) (xs : List α) :
+    Spec.rsi N (xs.map fun x => a * x) = Spec.rsi N xs := by
+  simp only [Spec.rsi, List.length_map, List.isEmpty_map, Invar.gains_scale N a ha, Invar.losses_scale N a ha]
+  split
+  · rfl
+  · simp only [Option.some.injEq, nat_eq, Nat.cast_zero]
+    by_cases hL : losses N xs = 0
+    · simp [hL]
+    · have : ¬ (a * losses N xs = 0) := mul_ne_zero ha.ne' hL
+      simp only [beq_iff_eq, hL, this, if_false]
+      have : ∀ c : α, c * (a * gains N xs) / (a * gains N xs + a * losses N xs) = c * gains N xs / (gains N xs + losses N xs) := by
+        intro c; rw [← mul_add, show c * (a * gains N xs) = a * (c * gains N xs) by ring, mul_div_mul_left _ _ ha.ne']
+      exact this _
+
+/-- MyRSI is unchanged by a change of unit (including the values it holds on flat windows) -/
+theorem myRsiHold_scale (N : Nat) (a : α) (ha : 0 < a) (xs : List α) :
+    Spec.myRsiHold N (xs.map fun x => a * x) = Spec.myRsiHold N xs := by
+  induction xs using List.reverseRecOn with
+  | nil => rfl
+  | append_singleton xs x ih =>
+    have e : (xs ++ [x]).map (fun x => a * x) = xs.map (fun x => a * x) ++ [a * x] := by simp
+    rw [e, C05.myrsi_hold_step, ← e, Invar.gains_scale N a ha, Invar.losses_scale N a ha, ih, C05.myrsi_hold_step]
+    by_cases h0 : gains N (xs ++ [x]) + losses N (xs ++ [x]) = 0
+    · have : a * gains N (xs ++ [x]) + a * losses N (xs ++ [x]) = 0 := by rw [← mul_add, h0, mul_zero]
+      rw [if_pos h0, if_pos this]
+    · have : ¬ (a * gains N (xs ++ [x]) + a * losses N (xs ++ [x]) = 0) := by
+        rw [← mul_add]; exact mul_ne_zero ha.ne' h0
+      rw [if_neg h0, if_neg this, ← mul_add, ← mul_sub, mul_div_mul_left _ _ ha.ne']
+
+theorem myrsi_scale (N : Nat) (a : α) (ha : 0 < a) (xs : List α) :
+    Spec.myRsi N (xs.map fun x => a * x) = Spec.myRsi N xs := by
+  simp only [Spec.myRsi, List.length_map, myRsiHold_scale N a ha]
+
+/-! ### CenterOfGravity: a ratio of two sums that both scale -/
+theorem cog_scale (N : Nat) (a : α) (ha : 0 < a) (xs : List α) :
+    Spec.cog N (xs.map fun x => a * x) = Spec.cog N xs := by
+  simp only [Spec.cog, lastN_map, List.isEmpty_map, List.length_map]
+  split
+  · rfl
+  · simp only [Option.some.injEq]
+    have hden : sumL ((lastN N xs).map fun x => a * x) = a * sumL (lastN N xs) := sumL_map_mul a _
+    have hnum : sumL (((lastN N xs).map fun x => a * x).reverse.zipIdx.map fun (x, k) => nat (k + 1) * x) =
+        a * sumL ((lastN N xs).reverse.zipIdx.map fun (x, k) => nat (k + 1) * x) := by
+      rw [← sumL_map_mul, ← List.map_reverse, List.zipIdx_map, List.map_map, List.map_map]
+      congr 1; apply List.map_congr_left; intro ⟨x, k⟩ _
+      simp only [Function.comp, Prod.map, id]; ring
+    rw [hden, hnum]
+    by_cases h0 : sumL (lastN N xs) = 0
+    · simp [h0, nat_eq]
+    · have : ¬ (a * sumL (lastN N xs) = 0) := mul_ne_zero ha.ne' h0
+      simp only [beq_iff_eq, nat_eq, Nat.cast_zero, h0, this, if_false]
+      rw [mul_div_mul_left _ _ ha.ne']
 
 end SF.C12
